@@ -47,6 +47,7 @@ class L1Prop:
 # ------------------------------------------------------------------ C01
 class C01(L1Prop):
     id = "C01"
+    overlap = True
     rule = ("random multi-client histories (adversarial id classes, reopen points) with an end-to-end walk of "
             "every client's chain through get_child_version at the end and at interior points; non-trivial = "
             ">=3 accepted versions and >=1 rejected/declined request; distinct by hash of the concrete op lines")
@@ -188,6 +189,7 @@ def cas_check(i, trace, fails):
 
 class C02(L1Prop):
     id = "C02"
+    overlap = True
     rule = ("visited states (random prefixes incl. snapshots, non-nil bases, several clients) x every class of "
             "requested parent (nil, latest, ancestors, base, fresh, foreign, own client id), each on a replayed copy "
             "of the state, with a complete dump of all clients before and after; non-trivial = target client has "
@@ -239,6 +241,7 @@ class C02(L1Prop):
 # ------------------------------------------------------------------ C07
 class C07(L1Prop):
     id = "C07"
+    overlap = True
     rule = ("random histories; after every operation class (accepted/rejected versions, snapshots, other clients' "
             "requests, backdating, reopen) every previously accepted version is re-read by asking for the child of "
             "its parent; non-trivial = some version re-read >=3 times across >=2 later operation kinds")
@@ -281,6 +284,7 @@ class C07(L1Prop):
 # ------------------------------------------------------------------ C08
 class C08(L1Prop):
     id = "C08"
+    overlap = True
     rule = ("visited states x every class of p: GetChildVersion(p) immediately followed by AddVersion(p) on the same "
             "state (prefix replayed per class); non-trivial = client has >=2 versions; distinct by concrete ops")
     def cases(self, rng, tier):
@@ -725,6 +729,7 @@ class SnapTracker:
 
 class C11(L1Prop):
     id = "C11"
+    overlap = True
     rule = ("random histories of AddVersion / AddSnapshot (accepted and declined) with, after every operation of a "
             "client, GetSnapshot and a walk of the chain from the returned version id; the expected answer is "
             "recomputed from requests and responses by the acceptance rule; non-trivial = >=2 accepted snapshots and "
